@@ -513,7 +513,11 @@ class CallMixin:
         saved_env = dict(st.env)
         def rec(gi, guard):
             if gi == len(n.generators):
-                out.append((guard, self.ev(n.elt, st) if not isinstance(n, ast.DictComp) else (self.ev(n.key, st), self.ev(n.value, st))))
+                # the element expression is evaluated only when its guard holds: exceptions it raises carry the guard
+                pc0 = st.pc; st.pc = simp(AND(pc0, guard))
+                v = self.ev(n.elt, st) if not isinstance(n, ast.DictComp) else (self.ev(n.key, st), self.ev(n.value, st))
+                st.pc = simp(OR(AND(pc0, NOT(guard)), st.pc))
+                out.append((guard, v))
                 return
             g = n.generators[gi]
             for ig, item in self.iter_items(self.ev(g.iter, st), st, n):
